@@ -20,8 +20,8 @@ FUNCTIONS = ["ProofGraph::new", "ProofGraph::insert_proof", "ProofGraph::invalid
              "ProofGraph::get_node", "ProofGraphNode::new", "ProofGraphNode::add_justification",
              "ProofGraphNode::remove_justifications_with_premise", "FactKey::new"]
 TIERS = {
-    "quick": [{"N": 3, "K": 3}],
-    "thorough": [{"N": 3, "K": 4}, {"N": 4, "K": 3}],
+    "quick": [{"N": 3, "K": 4}],
+    "thorough": [{"N": 4, "K": 4}, {"N": 3, "K": 5}, {"N": 3, "skeleton": "IIIVVIV"}],
 }
 ASSUMPTIONS = [
     "one distinct FactKey per handle (so is_proven(key_h) observes exactly node h)",
@@ -41,7 +41,9 @@ def key(x):
     return St("FactKey", {"fact_type": S("T"), "field": none(), "pattern": S("k%d" % x)})
 
 
-def run(N, K, witness=False):
+def run(N, K=None, skeleton=None, witness=False):
+    if skeleton:
+        K = len(skeleton)
     h = Harness(FILES, cap=max(N, K) + 1, loop_bound=max(N, K) + 2, rec_bound=N + 2)
     ip = h.ip
     h.let("g", h.call("ProofGraph::new", []))
@@ -61,24 +63,31 @@ def run(N, K, witness=False):
         return band(isnode[x], bnot(dinv[x]), bor(*[band(act, own == x, alive) for (act, own, bits, alive) in justs]))
 
     for step in range(K):
+        h.tag = 'step%d' % step
         op = h.int("op%d" % step, 0, 1).v
+        if skeleton:
+            # operation kinds fixed by the skeleton (I = insert_proof, V = invalidate_handle); arguments stay symbolic
+            h.assume(op == (0 if skeleton[step] == "I" else 1))
+            op = z3.IntVal(0 if skeleton[step] == "I" else 1)
         tgt = h.int("tgt%d" % step, 1, N).v
         bits = {x: h.bool("m%d_%d" % (step, x)) for x in H}
         ops.append((op, tgt, bits))
-        is_ins = op == 0
+        is_ins = (skeleton[step] == "I") if skeleton else (op == 0)
         # admissible premises: lower rank, never invalidated, (and not the target itself by rank)
         for x in H:
             h.assume(z3.Implies(z3.And(is_ins, bits[x]), zbool(band(*[bor(bnot(tgt == y), rank[x] < rank[y]) for y in H]))))
             h.assume(z3.Implies(z3.And(is_ins, bits[x]), zbool(bnot(everinv[x]))))
         prem = ip.bi.vec_from_seq([(bits[x], fh(x)) for x in H])
         pkeys = Vc([])
-        for x in H:
-            with ip.under(band(is_ins, tgt == x)):
-                if ip.g is not False:
-                    ip.call("ProofGraph::insert_proof", [g, fh(x), key(x), S("r"), prem, pkeys])
-            with ip.under(band(bnot(is_ins), tgt == x)):
-                if ip.g is not False:
-                    ip.call("ProofGraph::invalidate_handle", [g, fh(x)])
+        hsym = St("FactHandle", {"0": I(tgt, "u64")})
+        ksym = S("k%d" % N)
+        for x in range(N - 1, 0, -1):
+            ksym = ite(tgt == x, S("k%d" % x), ksym)
+        keysym = St("FactKey", {"fact_type": S("T"), "field": none(), "pattern": ksym})
+        with ip.under(is_ins):
+            ip.call("ProofGraph::insert_proof", [g, hsym, keysym, S("r"), prem, pkeys])
+        with ip.under(bnot(is_ins)):
+            ip.call("ProofGraph::invalidate_handle", [g, hsym])
         # reference model -------------------------------------------------------
         for x in H:
             hit = band(is_ins, tgt == x)
@@ -121,7 +130,7 @@ def run(N, K, witness=False):
     if witness:
         h.require(False, "C17 witness: end of harness reached")
     res = h.decide()
-    res["bounds"] = {"handles": N, "operations": K}
+    res["bounds"] = {"handles": N, "operations": K, "skeleton": skeleton}
     res["harness"] = h
     res["ops"] = ops
     return res
@@ -206,7 +215,7 @@ fn main() {
 
 if __name__ == "__main__":
     import sys
-    r = run(int(sys.argv[1]), int(sys.argv[2]))
+    r = run(int(sys.argv[1]), int(sys.argv[2])) if sys.argv[2].isdigit() else run(int(sys.argv[1]), skeleton=sys.argv[2])
     print(r["status"], r["covers"], r["inconclusive"][:5], "wall", r["wall_s"], "decide", r["decide_wall_s"])
     for msg, m in r["violations"]:
         print("VIOLATION", msg, decode(r, m), finding_key(msg, decode(r, m)))
